@@ -35,7 +35,7 @@ const replayMaxLen = 4096
 var tByte = types.Typ[types.Uint8]
 
 func tryReplay(E *Engine, cfg *PropConfig, o *Obl, dir string) (string, bool, string) {
-	tmplPath := filepath.Join(verifRoot(), "replay", o.Func+".go.tmpl")
+	tmplPath := filepath.Join(verifRoot(), "replay", strings.TrimPrefix(o.Func, "lemma:")+".go.tmpl")
 	tb, err := os.ReadFile(tmplPath)
 	if err != nil {
 		return "", false, ""
@@ -202,13 +202,26 @@ func tryReplay(E *Engine, cfg *PropConfig, o *Obl, dir string) (string, bool, st
 // runReplayFile injects the test into the function's package with -overlay and runs it.
 func runReplayFile(E *Engine, o *Obl, goPath string) (bool, string) {
 	fn := E.funcs[o.Func]
-	if fn == nil || fn.Pkg == nil {
-		return false, "function not found"
-	}
 	var pkgDir string
-	for _, p := range E.pkgs {
-		if p.Types == fn.Pkg.Pkg && len(p.GoFiles) > 0 {
-			pkgDir = filepath.Dir(p.GoFiles[0])
+	if fn == nil || fn.Pkg == nil {
+		// a lemma has no function: its replaypkg option names the package whose real code the template drives
+		for _, l := range E.contracts.Lemmas {
+			if l.Name == strings.TrimPrefix(o.Func, "lemma:") && l.Opts["replaypkg"] != "" {
+				for _, p := range E.pkgs {
+					if strings.HasSuffix(p.PkgPath, "/"+strings.TrimPrefix(l.Opts["replaypkg"], "./")) && len(p.GoFiles) > 0 {
+						pkgDir = filepath.Dir(p.GoFiles[0])
+					}
+				}
+			}
+		}
+		if pkgDir == "" {
+			return false, "function not found"
+		}
+	} else {
+		for _, p := range E.pkgs {
+			if p.Types == fn.Pkg.Pkg && len(p.GoFiles) > 0 {
+				pkgDir = filepath.Dir(p.GoFiles[0])
+			}
 		}
 	}
 	if pkgDir == "" {
